@@ -28,6 +28,7 @@ import (
 	wasmkeeper "github.com/CosmWasm/wasmd/x/wasm/keeper"
 	wasmvmtypes "github.com/CosmWasm/wasmvm/v2/types"
 	sdk "github.com/cosmos/cosmos-sdk/types"
+	ethcommon "github.com/ethereum/go-ethereum/common"
 	"github.com/palomachain/paloma/v2/util/libwasm"
 	ctypes "github.com/palomachain/paloma/v2/x/consensus/types"
 	evmtypes "github.com/palomachain/paloma/v2/x/evm/types"
@@ -60,6 +61,7 @@ type variant struct {
 	Def     []byte // job definition JSON
 	Payload []byte // job payload JSON
 	Bytes   []byte // the call data the payload denotes
+	Abi     []byte // SubmitLogicCall.Abi as the implementation derives it from the stored ABI string (common.FromHex)
 }
 
 func mustHex(s string) []byte {
@@ -75,11 +77,14 @@ var variants = func() []variant {
 	p1hex := "a1b2c3d4000000000000000000000000000000000000000000000000000000000000002a"
 	p1, _ := json.Marshal(evmtypes.JobPayload{HexPayload: p1hex})
 	return []variant{
-		{Name: "P1", Chain: refA, Addr: "0x00000000000000000000000000000000000000C1", Def: d1, Payload: p1, Bytes: mustHex(p1hex)},
-		// hand-written JSON with the lower-case field names and a 0x-prefixed payload
+		{Name: "P1", Chain: refA, Addr: "0x00000000000000000000000000000000000000C1", Def: d1, Payload: p1, Bytes: mustHex(p1hex), Abi: ethcommon.FromHex("[]")},
+		// hand-written JSON with the lower-case field names, a 0x-prefixed payload, an ABI string
+		// that survives the implementation's hex decoding, and a STORED payload document that
+		// also carries keys named like definition fields (they must not leak into the definition)
 		{Name: "P2", Chain: refB, Addr: "0x00000000000000000000000000000000000000d2",
-			Def:     []byte(`{"address":"0x00000000000000000000000000000000000000d2","abi":"[{}]"}`),
-			Payload: []byte(`{"hexPayload":"0xdeadbeef00"}`), Bytes: mustHex("deadbeef00")},
+			Def:     []byte(`{"address":"0x00000000000000000000000000000000000000d2","abi":"0xabcdef01"}`),
+			Payload: []byte(`{"hexPayload":"0xdeadbeef00","address":"0x00000000000000000000000000000000000000F3","abi":"0x7777"}`),
+			Bytes:   mustHex("deadbeef00"), Abi: ethcommon.FromHex("0xabcdef01")},
 	}
 }()
 
@@ -87,11 +92,14 @@ var variants = func() []variant {
 var (
 	qBytes = mustHex("00c0ffee00")
 	qJSON  = []byte(`{"hexPayload":"00c0ffee00"}`)
+	// the same call data in a document that also carries keys named like definition fields
+	qxJSON = []byte(`{"hexPayload":"00c0ffee00","address":"0x00000000000000000000000000000000000000EE","abi":"0x1234"}`)
 )
 
 type supplied struct {
 	Name  string
 	Bytes []byte // as put into MsgExecuteJob.Payload / the contract message
+	Data  []byte // the call data it denotes
 }
 
 // ---------------------------------------------------------------------------
@@ -103,6 +111,7 @@ type jobRec struct {
 	Chain   string
 	Addr    string
 	Payload string // hex of the call data the stored payload denotes
+	Abi     string // hex of the Abi bytes the stored definition denotes
 	Mod     bool
 	MEV     bool
 }
@@ -112,6 +121,7 @@ type call struct {
 	Chain     string
 	Turnstone string
 	Contract  string
+	Abi       string // hex
 	Payload   string // hex
 	Sender    string // hex of SenderAddress
 	CAddr     string // hex of ContractAddress
@@ -226,7 +236,7 @@ func (e *env) observe(ctx sdk.Context) (*obs, *explore.Fail) {
 				case *evmtypes.Message_SubmitLogicCall:
 					s := a.SubmitLogicCall
 					x.Kind = "slc"
-					x.C = call{ID: m.GetId(), Chain: em.GetChainReferenceID(), Turnstone: em.GetTurnstoneID(), Contract: s.GetHexContractAddress(),
+					x.C = call{ID: m.GetId(), Chain: em.GetChainReferenceID(), Turnstone: em.GetTurnstoneID(), Contract: s.GetHexContractAddress(), Abi: hex.EncodeToString(s.GetAbi()),
 						Payload: hex.EncodeToString(s.GetPayload()), Sender: hex.EncodeToString(s.GetSenderAddress()), CAddr: hex.EncodeToString(s.GetContractAddress()),
 						MEV: s.GetExecutionRequirements().EnforceMEVRelay, Deadline: s.GetDeadline(), Retries: s.GetRetries()}
 				case *evmtypes.Message_UpdateValset:
@@ -320,6 +330,8 @@ func errClass(err error) string {
 		{"no validators eligible", "no-relayer"},
 		{"no assignable validators", "no-assignable-relayer"},
 		{"invalid sender", "invalid-sender-claim"},
+		{"must be all in lowercase", "id-not-lowercase"},
+		{"invalid character", "id-invalid-character"},
 		{"missing payload", "contract-empty-payload"},
 		{"payload bytes is empty", "contract-empty-payload"},
 		{"unexpected end of JSON", "empty-json-payload"},
@@ -430,8 +442,8 @@ func run(r *report.Run, shard, nshards int, replayFile string) {
 	srv := schedkeeper.NewMsgServerImpl(sk)
 	e.router = libwasm.NewRouterMessageDecorator(log.NewNopLogger(), schedbindings.NewLegacyMessenger(sk), schedbindings.NewMessenger(sk, srv), nil, nil)(nil)
 
-	r.Rule = "BFS over Create(owner in {U1,U2}, id in {j1,j2}, modifiable?, variant in {P1 on eth-main, P2 on bnb-main}) incl. duplicates, owner-field spoof, MEV-flagged and contract-created jobs; " +
-		"Exec(account in {U1,U2}, id in {j1,j2,unknown}, payload in {nil, empty, Q}); ExecContract(contract in {32-byte via scheduler_msg, 20-byte via legacy message}, id, payload in {empty, Q}) plus, for payload Q on j1/j2, the message's `sender` claim in {absent, contract's own address, U1's address, garbage} for both message forms — the requester stays the dispatching contract; " +
+	r.Rule = "BFS over Create(owner in {U1,U2}, id in {j1,j2}, modifiable?, variant in {P1 on eth-main, P2 on bnb-main — its stored payload document also carries address/abi keys}) incl. duplicates, near-collision ids (J1/J2, leading/trailing space) by another creator with other content, owner-field spoof, MEV-flagged and contract-created jobs (also J1/J2); " +
+		"Exec(account in {U1,U2}, id in {j1,j2,unknown}, payload in {nil, empty, Q, QX = Q plus address/abi keys}); ExecContract(contract in {32-byte via scheduler_msg, 20-byte via legacy message}, id, payload in {empty, Q}) plus, for payload Q on j1/j2, the message's `sender` claim in {absent, contract's own address, U1's address, garbage} for both message forms — the requester stays the dispatching contract; " +
 		"NoRelayer / RestoreRelayer (fee records of eth-main); NewSnapshot (valset rotation => just-in-time UpdateValset, toggles the MEV trait). " +
 		"Transactions are signed, wire-encoded, decoded and run through the real ante chain and MsgServiceRouter; contract requests run through the real libwasm router and scheduler bindings inside a sub-context as wasmd does. " +
 		"A state is distinct by (scheduler, consensus, treasury, valset stores, ghost)."
@@ -440,7 +452,8 @@ func run(r *report.Run, shard, nshards int, replayFile string) {
 		"weaker reading of 'caller-supplied payload': a nil payload is 'none supplied'; for a present-but-empty payload (in-memory MsgExecuteJob, contract message with empty bytes) on a modifiable job both the stored call data and empty call data are accepted; a request on a fixed-payload job that carries a payload may either fail or run the STORED payload — only using the supplied payload is a violation",
 		"'failed request enqueues no contract call' is checked twice: on the state after the (rolled back) transaction, and on the handler's own context before the roll-back (signature suffix ':handler-level') — the second is stronger than what an on-chain observer sees",
 		"payloads in the alphabet are well-formed hex (one with 0x prefix); what a malformed hex payload 'denotes' is not defined by the property and is not explored",
-		"SubmitLogicCall.Abi, Deadline, Fees and the relayer assignment are not constrained by the property; Deadline/Retries of already queued calls must not change",
+		"SubmitLogicCall.HexContractAddress must equal the stored definition's address; SubmitLogicCall.Abi must equal common.FromHex(stored ABI string) — the encoding the implementation uses, the property does not define one — so that neither can be influenced by the request; Deadline, Fees and the relayer assignment are not constrained; Deadline/Retries of already queued calls must not change",
+		"near-collision ids (upper case, leading/trailing space; the ids j1/j2 have one letter, so mixed case coincides with upper case): a creation that is accepted and stored under a canonicalised id is not by itself a violation — it is one when an existing record changes or the store does not grow by exactly one record",
 		"no EndBlock / relay / attestation in the alphabet: messages are never consumed, so the queue must equal the ghost list of expected calls in every state",
 		"evm and metrix stores are read but not written by the alphabet; they are not part of the state hash",
 	}
@@ -690,32 +703,60 @@ func (e *env) deliverWire(ctx sdk.Context, a *world.Actor, msg sdk.Msg, wire boo
 	return res, nil
 }
 
-// created checks the record a successful creation stored and enters it into the ghost.
+// created checks what a successful creation did to the job store and enters the
+// new record into the ghost: no existing record may change, exactly one record
+// must be new, and it must carry the creator and the requested content.
 func (e *env) created(ctx sdk.Context, g *ghost, id string, creator sdk.AccAddress, v variant, mod, mev bool, via string) *explore.Fail {
 	if _, dup := g.Jobs[id]; dup {
-		return explore.Failf("create:duplicate-id-accepted"+via, "a second creation with the existing id %s succeeded", id)
+		return explore.Failf("create:duplicate-id-accepted"+via, "a second creation with the existing id %q succeeded", id)
 	}
 	dump := e.w.StoreDump(ctx, "scheduler", nil)
-	raw, ok := dump[hex.EncodeToString(append([]byte("jobs"), []byte(id)...))]
-	if !ok {
-		return explore.Failf("create:not-stored"+via, "creation of %s succeeded but no record is stored", id)
+	key := func(id string) string { return hex.EncodeToString(append([]byte("jobs"), []byte(id)...)) }
+	known := map[string]bool{}
+	for old, rec := range g.Jobs {
+		known[key(old)] = true
+		got, ok := dump[key(old)]
+		if !ok {
+			return explore.Failf("create:existing-job-removed"+via, "creation of %q removed the stored job %q", id, old)
+		}
+		if got != rec.Raw {
+			return explore.Failf("create:existing-job-overwritten"+via, "creation of %q by %s succeeded and changed the stored job %q:\n first %s\n now   %s", id, e.short(creator), old, describe(e, rec.Raw), describe(e, got))
+		}
+	}
+	var fresh []string
+	for k := range dump {
+		if !known[k] {
+			fresh = append(fresh, k)
+		}
+	}
+	if len(fresh) != 1 {
+		return explore.Failf("create:store-count"+via, "creation of %q succeeded; the store now holds %d jobs after %d successful creations (new keys %v)", id, len(dump), len(g.Jobs)+1, keysOf(dump))
+	}
+	raw := dump[fresh[0]]
+	sid := id
+	if fresh[0] != key(id) {
+		// stored under another key than the submitted id: a canonicalised id is not by
+		// itself a violation (weaker reading); the record is tracked under the stored id
+		kb, _ := hex.DecodeString(fresh[0])
+		sid = strings.TrimPrefix(string(kb), "jobs")
+		e.count(g, "create:id-canonicalised")
 	}
 	b, _ := hex.DecodeString(raw)
 	var j schedtypes.Job
 	if err := e.w.App.AppCodec().Unmarshal(b, &j); err != nil {
-		return explore.Failf("create:undecodable"+via, "stored record of %s: %v", id, err)
+		return explore.Failf("create:undecodable"+via, "stored record of %q: %v", id, err)
 	}
 	switch {
 	case !j.Owner.Equals(creator):
-		return explore.Failf("create:owner-not-creator"+via, "job %s stored with owner %s, creator is %s", id, e.short(j.Owner), e.short(creator))
-	case j.ID != id || j.Routing.ChainType != "evm" || j.Routing.ChainReferenceID != v.Chain:
-		return explore.Failf("create:routing-differs"+via, "job %s stored as id=%s routing=%s/%s, requested evm/%s", id, j.ID, j.Routing.ChainType, j.Routing.ChainReferenceID, v.Chain)
+		return explore.Failf("create:owner-not-creator"+via, "job %q stored with owner %s, creator is %s", id, e.short(j.Owner), e.short(creator))
+	case j.ID != sid || j.Routing.ChainType != "evm" || j.Routing.ChainReferenceID != v.Chain:
+		return explore.Failf("create:routing-differs"+via, "job %q stored under %q as id=%q routing=%s/%s, requested evm/%s", id, sid, j.ID, j.Routing.ChainType, j.Routing.ChainReferenceID, v.Chain)
 	case !bytes.Equal(j.Definition, v.Def) || !bytes.Equal(j.Payload, v.Payload):
-		return explore.Failf("create:content-differs"+via, "job %s stored with definition %s payload %s, requested %s %s", id, j.Definition, j.Payload, v.Def, v.Payload)
+		return explore.Failf("create:content-differs"+via, "job %q stored with definition %s payload %s, requested %s %s", id, j.Definition, j.Payload, v.Def, v.Payload)
 	case j.IsPayloadModifiable != mod || j.EnforceMEVRelay != mev:
-		return explore.Failf("create:flags-differ"+via, "job %s stored with modifiable=%v mev=%v, requested %v %v", id, j.IsPayloadModifiable, j.EnforceMEVRelay, mod, mev)
+		return explore.Failf("create:flags-differ"+via, "job %q stored with modifiable=%v mev=%v, requested %v %v", id, j.IsPayloadModifiable, j.EnforceMEVRelay, mod, mev)
 	}
-	g.Jobs[id] = &jobRec{Raw: raw, Owner: hex.EncodeToString(creator), Chain: v.Chain, Addr: v.Addr, Payload: hex.EncodeToString(v.Bytes), Mod: mod, MEV: mev}
+	g.Jobs[sid] = &jobRec{Raw: raw, Owner: hex.EncodeToString(creator), Chain: v.Chain, Addr: v.Addr, Payload: hex.EncodeToString(v.Bytes), Abi: hex.EncodeToString(v.Abi), Mod: mod, MEV: mev}
 	return nil
 }
 
@@ -745,13 +786,13 @@ func (e *env) requestDone(ctx sdk.Context, g *ghost, kind, id string, requester,
 	target := world.TurnstoneQueue(rec.Chain)
 	payload := rec.Payload
 	if rec.Mod && len(sup.Bytes) > 0 {
-		payload = hex.EncodeToString(suppliedCallData(sup))
+		payload = hex.EncodeToString(sup.Data)
 	}
 	emptyAlt := ""
 	if rec.Mod && sup.Bytes != nil && len(sup.Bytes) == 0 {
 		emptyAlt = hex.EncodeToString(leftPad32(requester))
 	}
-	want := call{Chain: rec.Chain, Turnstone: turnstone, Contract: rec.Addr, Payload: payload + hex.EncodeToString(leftPad32(requester)),
+	want := call{Chain: rec.Chain, Turnstone: turnstone, Contract: rec.Addr, Abi: rec.Abi, Payload: payload + hex.EncodeToString(leftPad32(requester)),
 		Sender: hex.EncodeToString(senderField), CAddr: hex.EncodeToString(contractField), MEV: rec.MEV, Deadline: deadline}
 	for _, q := range e.queues {
 		bm := map[uint64]qmsg{}
@@ -821,18 +862,12 @@ func (e *env) requestDone(ctx sdk.Context, g *ghost, kind, id string, requester,
 	return nil
 }
 
-// suppliedCallData is the call data a supplied payload denotes.
-func suppliedCallData(s supplied) []byte {
-	if s.Name == "Q" {
-		return qBytes
-	}
-	return nil
-}
-
 func diffClass(got, want call, rec *jobRec, sup supplied) string {
 	switch {
 	case got.Contract != want.Contract:
 		return "wrong-contract"
+	case got.Abi != want.Abi:
+		return "wrong-abi"
 	case got.Chain != want.Chain || got.Turnstone != want.Turnstone:
 		return "wrong-routing"
 	case got.Sender != want.Sender || got.CAddr != want.CAddr:
@@ -896,7 +931,7 @@ func (e *env) ops(n *explore.Node) []explore.Op {
 			}
 			if !res.OK() {
 				e.count(g, "create:fail:"+errClass(res.Err))
-				if _, dup := g.Jobs[id]; !dup {
+				if _, dup := g.Jobs[id]; !dup && (id == "j1" || id == "j2") {
 					// a creation of a fresh id with well-formed content: not a property matter, but worth knowing
 					e.count(g, "create:fresh-id-rejected")
 				}
@@ -934,8 +969,20 @@ func (e *env) ops(n *explore.Node) []explore.Op {
 	}
 	// MEV-flagged fixed job
 	ops = append(ops, createOp("CreateMEV(U1,j2,fixed,P1)", e.users[0], "j2", variants[0], false, true, nil))
-	// contract-created job through the bindings
+	// near-collisions of the ids: upper case, leading / trailing space — by another creator with
+	// other content (two parameter sets for the case variant so that at least one differs from
+	// whatever is stored). Rejected on a tree that validates ids; if one is accepted, created()
+	// demands that no existing record changed and that the store grew by exactly one record.
 	for _, id := range ids {
+		up := strings.ToUpper(id)
+		ops = append(ops, createOp(fmt.Sprintf("Create(U2,%q,modifiable,P2)", up), e.users[1], up, variants[1], true, false, nil))
+		ops = append(ops, createOp(fmt.Sprintf("Create(U1,%q,fixed,P1)", up), e.users[0], up, variants[0], false, false, nil))
+		for _, near := range []string{" " + id, id + " "} {
+			ops = append(ops, createOp(fmt.Sprintf("Create(U2,%q,modifiable,P2)", near), e.users[1], near, variants[1], true, false, nil))
+		}
+	}
+	// contract-created job through the bindings (ids and their upper-case variants)
+	for _, id := range []string{"j1", "j2", "J1", "J2"} {
 		id := id
 		c := e.contracts[0]
 		v := variants[0]
@@ -973,7 +1020,7 @@ func (e *env) ops(n *explore.Node) []explore.Op {
 	}
 
 	// Exec by accounts
-	sups := []supplied{{Name: "nil", Bytes: nil}, {Name: "empty", Bytes: []byte{}}, {Name: "Q", Bytes: qJSON}}
+	sups := []supplied{{Name: "nil", Bytes: nil}, {Name: "empty", Bytes: []byte{}}, {Name: "Q", Bytes: qJSON, Data: qBytes}, {Name: "QX", Bytes: qxJSON, Data: qBytes}}
 	for _, u := range e.users {
 		for _, id := range []string{"j1", "j2", "ghost9"} {
 			for _, sup := range sups {
@@ -1010,7 +1057,7 @@ func (e *env) ops(n *explore.Node) []explore.Op {
 	// contract; the requester is the dispatching contract whatever it claims.
 	// Default sender: the contract itself (scheduler_msg) / field absent (legacy);
 	// the other claims {absent, own, U1, garbage} are explored with payload Q on j1, j2.
-	csups := []supplied{{Name: "empty", Bytes: []byte{}}, {Name: "Q", Bytes: qBytes}}
+	csups := []supplied{{Name: "empty", Bytes: []byte{}}, {Name: "Q", Bytes: qBytes, Data: qBytes}}
 	type claim struct {
 		Name string
 		Set  bool
